@@ -1349,6 +1349,15 @@ func (db *DB) QueryWithContext(ctx context.Context, req *command.Request, xTime 
 		return nil, err
 	}
 	defer conn.Close()
+	// mode=ro covers the main database only: a database ATTACHed to this connection
+	// is opened read-write, and query_only can be switched off by a PRAGMA the
+	// guard does not recognise. Queries never need ATTACH, so refuse it here.
+	if err := conn.Raw(func(driverConn any) error {
+		driverConn.(*sqlite3.SQLiteConn).SetLimit(sqlite3.SQLITE_LIMIT_ATTACHED, 0)
+		return nil
+	}); err != nil {
+		return nil, err
+	}
 	return db.queryWithConn(ctx, req, xTime, conn)
 }
 
